@@ -85,7 +85,15 @@ class InstanceReport:
                     spec.setdefault("key", key)
                 self.candidates.append(spec)
             return "sat"
-        self.inconclusive.append(f"{label}: solver returned unknown ({ctx.solver.reason_unknown()})")
+        # second engine for polynomial identities: abstract uninterpreted applications to fresh constants
+        # (sound for unsat) and decide with nlsat
+        t1 = time.time()
+        r2 = nlsat_unsat(ctx.constraints() + [negated], timeout_ms or ctx.timeout_ms)
+        self.solver_ms += (time.time() - t1) * 1000
+        if r2 == "unsat":
+            self.discharged += 1
+            return "unsat"
+        self.inconclusive.append(f"{label}: solver returned unknown ({ctx.solver.reason_unknown()}; nlsat on the UF-abstraction: {r2})")
         return "unknown"
 
     def reachable(self, ctx):
@@ -229,3 +237,41 @@ def real_witness(ctx, extra=(), tries=4000, seed=0, samplers=None, model=None):
         if holds(env):
             return env
     return None
+
+
+def abstract_ufs(exprs):
+    """Replace every application of an uninterpreted function by a fresh real constant (same term -> same
+    constant).  An over-approximation: unsat of the abstraction implies unsat of the original."""
+    table = {}
+    cache = {}
+
+    def walk(t):
+        k = t.get_id()
+        if k in cache:
+            return cache[k]
+        if z3.is_app(t) and t.num_args() > 0:
+            args = [walk(a) for a in t.children()]
+            d = t.decl()
+            if d.kind() == z3.Z3_OP_UNINTERPRETED:
+                key = (d.name(), tuple(a.get_id() for a in args))
+                if key not in table:
+                    table[key] = (z3.Real(f"uf!{d.name()}!{len(table)}"), args)
+                r = table[key][0]
+            else:
+                r = d(*args)
+        else:
+            r = t
+        cache[k] = r
+        return r
+    return [walk(e) for e in exprs], table
+
+
+def nlsat_unsat(constraints, timeout_ms=20000):
+    try:
+        abs_c, _ = abstract_ufs(constraints)
+        s = z3.Then("simplify", "purify-arith", "qfnra-nlsat").solver()
+        s.set("timeout", int(timeout_ms))
+        s.add(*abs_c)
+        return str(s.check())
+    except z3.Z3Exception as e:
+        return f"error: {e}"
